@@ -13,8 +13,10 @@ CFG = {
                   "swallowed), the interception rule in closed form, the layer's state invariant, and that the universal-mux monitor "
                   "never reports a base clause on a model trace; the strict reading 'the layer takes only the answer to its own "
                   "pending discovery request, and what it takes is not delivered as well' is FALSE of the code (witness theorems; "
-                  "candidate findings U1/U2 in notes/C12.md), so the generator feeds mapped-address-bearing STUN from a server address "
-                  "with a table entry only in the clean case unless VERIF_UDPMUXUNI_FULL=1.",
+                  "observations U1/U2 in notes/C12.md). The default verdict on the implementation is the LETTER of C12: the base clauses "
+                  "on EVERY datagram whether the layer took it or not (from server addresses owned by a connection too), plus the "
+                  "clauses about the layer doing its job (uni_answer); uni_consume / uni_both hits are observation statistics "
+                  "(component_stats obs.*) and verdicts only with VERIF_UDPMUXUNI_STRICT=1.",
     "level_note": "Ties: C (sequential differential correspondence incl. the close-vs-datagram window op `closein`) every run; A (concurrent acceptance recorder + in-package inspection of the routing tables at quiescence) in the thorough tier. Trusted: Lean kernel (axioms propext/Classical.choice/Quot.sound); the correspondence harness and driver; "
                   "pion/stun decoding (IsMessage/Decode/USERNAME) and net/netip canonicalisation are mirrored by small Lean functions "
                   "(Kind, canonAddr) validated only by the correspondence; the concurrent interleavings of the real goroutines are "
